@@ -246,6 +246,19 @@ func ZZ_C15_keyStore() {
 	if zz.Bool("a_resharing_follows") {
 		sv := sch.KeyGroup.Scalar().SetBytes(zz.SecretBytes("share2", sch.KeyGroup.ScalarLen()))
 		sh2 := &key.Share{DistKeyShare: kdkg.DistKeyShare{Commits: sh.Commits, Share: &share.PriShare{I: 0, V: sv}}, Scheme: sch}
+		if zz.Bool("the_share_file_cannot_be_written") {
+			// something is in the way of the share file (here: a directory at its path): the save fails, the daemon
+			// logs the error and goes on to save the group file
+			shareFile := path.Join(path.Dir(key.GroupFilePath(st)), "dist_key.private")
+			_ = os.Remove(shareFile)
+			if err := os.Mkdir(shareFile, 0o700); err != nil {
+				panic(err)
+			}
+			zz.Assert("failed_share_save_is_reported", st.SaveShare(sh2) != nil)
+			zz.Assert("save_group_ok", st.SaveGroup(g) == nil)
+			zz.Assert("files_holding_secrets_are_owner_only", zz.SecretFilesAreOwnerOnly())
+			return
+		}
 		zz.Assert("save_share_ok", st.SaveShare(sh2) == nil)
 		zz.Assert("save_group_ok", st.SaveGroup(g) == nil)
 		last = sh2
